@@ -206,7 +206,7 @@ def build(ctx):
     for t, lst in SCALARS.items():
         for init, want in lst:
             cases.append(("scalar", (t, init, want)))
-    R = (1, 2, 3, 4) if ctx.quick else (1, 2, 3, 4, 5)
+    R = (1, 2, 3, 4) if ctx.quick else (1, 2, 3, 4, 5, 6)
     for t in VALS:
         for r, c in itertools.product(R, repeat=2):
             n = r * c
@@ -259,12 +259,12 @@ def run(ctx):
             V.add(r[0], {"case": repr(c)}, r[1])
     nontrivial = sum(1 for c in cases if c[0] != "scalar" or not c[1][1].replace("-", "").replace(".", "").replace('"', "").isalnum())
     cov = {"evaluations": len(cases), "distinct_nontrivial": nontrivial,
-           "rule": "every scalar declaration of the type x initialiser table; every array declaration: element type x rows x columns (<=4, thorough <=5) x declared-shape variant "
+           "rule": "every scalar declaration of the type x initialiser table; every array declaration: element type x rows x columns (<=4, thorough <=6) x declared-shape variant "
                    "{none, correct, transposed, 1xN, Nx1, (N,)} x every subset of parameter positions (all subsets for <=4 elements, subsets of size <=2 (thorough <=3) and the full set otherwise), distinct element values; "
                    "every non-constant row-length vector in {1,2,3}^rows; every in-range index in literal / expression / bracketed form; whole-array parameters for every shape. "
                    "non-trivial = an array, an index, or a scalar with a non-literal initialiser; all cases distinct by construction",
            "samples": [repr(c) for c in common.sample(cases, 6)], "exhaustive": True, "by_family": dict(fam),
-           "bounds": {"rows_cols": list((1, 2, 3, 4) if ctx.quick else (1, 2, 3, 4, 5))}}
+           "bounds": {"rows_cols": list((1, 2, 3, 4) if ctx.quick else (1, 2, 3, 4, 5, 6))}}
     return {"coverage": cov, "violations": V.records(), "assumptions": ["element values are distinct so any rearrangement is visible", "dtype of arrays containing parameters is not constrained"]}
 
 
